@@ -162,13 +162,19 @@ CLAIMS = {
               '(zlib), and repack() over all packs is the iteration of the one-pack program in listdir order.'),
         design='4/C11'),
     'C12': dict(
-        technique='Coq soundness+completeness of the validation model w.r.t. the read path + exhaustive single-damage sweep',
+        technique='Coq soundness+completeness of the validation model w.r.t. the read path, the code-level scan (running end position in offset order) proved to imply it on every world + issue-list correspondence + exhaustive single-damage sweep',
         text=('PROOF (Coq, closed): Validate.validate_b models validate() over the same slicing semantics as the read path; '
               'C12_no_false_positive (Inv -> clean), C12_no_false_negative (for EVERY world: clean -> every visible key reads back with the key '
               'digest and recorded size), C12_read_path_is_recovery. TIE: on a container with loose/plain/compressed objects every single-bit flip '
               'and truncation of every referenced byte and every perturbation of offset/length/size/compressed/pack_id (1670 damages quick) is '
-              'applied; ground truth by reading through a new handle; validate after every step of 60 histories. PARTIAL: the model of validate '
-              'is hand-written and tied by the sweep, zlib is an oracle.'),
+              'applied; ground truth by reading through a new handle; validate after every step of 60 histories; packs of 1003/2003 entries with the '
+              'zero-length object at a multiple of 1000. THE SCAN AS CODED: ValidateScan.validate_f (pack ids from the index in increasing order, entries by '
+              'offset, each compared only with the running end of its predecessor, loose files re-hashed; a failing read raises); '
+              'C12_clean_scan_is_clean: on ANY world a clean report of that scan implies validate_b - ALL pairs disjoint, every entry re-reads as its key '
+              'and size - so C12_no_false_negative applies to the report the code computes; the extracted validate_f gives the four issue lists of the '
+              'real validate() (or raises when it raises) on 370+ damaged and undamaged states per run. PARTIAL: zlib is an oracle; the per-entry re-read '
+              'fed to the scan is computed through the library\'s stream classes (tied by C07); that the faithful scan is clean on every reachable state '
+              'relies on SQLite returning ties of ORDER BY offset in rowid order (tested after every history step, not proved).'),
         design='4/C12'),
     'C13': dict(
         technique='Coq: every step of the direct-to-pack and import programs keeps referenced bytes (all inputs); step theorem + verified per-step trace checker; pack-choice theorem; before/after pack comparison',
